@@ -16,6 +16,10 @@ I({"locals": 1, "loss": 0}, {"n": [1, 2, 3], "forward": [0, 1]})
 I({"locals": 3, "loss": 0, "forward": 0}, {"n": [1, 2]})
 I({"locals": 2, "loss": 1, "keepalive": 1, "forward": 0}, {"n": [1, 2]})
 I({"locals": 2, "loss": 1, "keepalive": 0, "forward": 0}, {"n": [1, 2]})
+I({"locals": 2, "loss": 0, "forward": 0, "refusals": 1}, {"n": [1, 2]})
+I({"locals": 3, "loss": 0, "forward": 0, "pipeerrors": 1}, {"n": [1]})
+inst.append({"entry": "VP_C16_Concurrent", "tiers": ["quick", "thorough"], "params": {"locals": 2}, "timeout_s": 900, "sched_symbolic": True, "max_decisions": 400, "expect_reach": ["shared"]})
+inst.append({"entry": "VP_C16_Concurrent", "tiers": ["thorough"], "params": {"locals": 3}, "timeout_s": 1800, "sched_symbolic": True, "max_decisions": 400})
 I({"locals": 1, "loss": 0}, {"n": [4], "forward": [0, 1]}, tiers=("thorough",))
 I({"locals": 3, "loss": 1}, {"n": [2, 3], "forward": [0, 1], "keepalive": [0, 1]}, tiers=("thorough",))
 import sys
@@ -28,8 +32,9 @@ g2 = {"package": "github.com/bokysan/socketace/v2/internal/client/upstream", "fi
 spec = {"property": "C16", "groups": [g1, g2],
  "bounds": {
   "policy": "upstream lists of 1-3 (4 thorough) fake upstreams whose Connect outcome is symbolic per entry {ok, refused, handshake error, insecure session} x security required or not x forward address absent / given (reachable or not, symbolic) x 1-3 sequential local connections x the carrier lost or not between two local connections (symbolic) x the session's keep-alive having closed the lost carrier or not yet",
+  "extras": "a channel the server refuses (the stream opened for it must be closed again, nothing piped); a logical connection whose pipe ends with an error (the shared session must survive); the smux configuration handed to smux.Client keeps the 4 MiB receive buffer; two (three thorough) local connections arriving concurrently while the upstream's Connect yields mid-way - every schedule at blocking points: one physical session, all served",
   "silent": "the real Connect of the socket, stdio and packet upstreams against a peer that goes silent at a symbolic point of the handshake (before any answer, inside the first answer, between the answers, inside the second answer)",
-  "outside": "real time ('bounded time' is judged as 'a deadline was set on the connection'); concurrent local connections racing on the Upstreams mutex (sequential here); the upstream types' own handshakes (C04/C06)"
+  "outside": "real time ('bounded time' is judged as 'a deadline was set on the connection'); concurrency beyond blocking-point granularity; the upstream types' own handshakes (C04/C06)"
  },
  "assumptions": [
   "smux contract (read in xtaci/smux v1.5.x): after the carrier is lost OpenStream fails with the stored read error; the session closes the carrier only when its keep-alive timeout fires (or Close is called)",
